@@ -38,20 +38,37 @@ def gen_scenarios(rng, quick):
 
     def finish(name, kind, phases, jitter):
         lines = ["scenario %s %d %d" % (name, rng.randrange(1, 10**6), jitter)]
-        n_lock = n_open = n_proc = 0
+        n_lock = n_open = n_proc = n_uops = 0
         for ph in phases:
             lines.append("phase")
             for idx, ops in ph:
                 lines.append("proc %d %s" % (idx, " ".join(ops)))
                 n_proc += 1
-                n_lock += sum(1 for o in ops if o[0] in "GBK")
-                n_open += 1 if any(o[0] in "OGBK" for o in ops) else 0
+                n_lock += sum(1 for o in ops if o[0] in "GBKH")
+                n_uops += sum(1 for o in ops if o[0] == "U")
+                n_open += 1 if any(o[0] in "OGBKHU" for o in ops) else 0
         lines.append("end")
         out.append({"name": name, "kind": kind, "text": "\n".join(lines) + "\n",
-                    "locks": n_lock, "opens": n_open, "procs": n_proc})
+                    "locks": n_lock, "uops": n_uops, "opens": n_open, "procs": n_proc})
 
     # the 3-step witness of DESIGN: (A: open, exit) . (B: open, lock) . (C: open, lock)
     finish("witness", "witness", [[(0, ["O"])], [(1, ["B40000"]), (2, ["B40000"])]], 0)
+    # a process blocked in sem_wait receives SIGUSR1 (handler without SA_RESTART) while another one
+    # is inside: sem_wait returns -1/EINTR and the waiter must not enter (1..4 waiters, seeded timing)
+    for i in range(2 if quick else 12):
+        nwait = (i % 4) + 1 if not quick else rng.choice([1, 2, 3, 4])
+        phases, idx = [], 0
+        if rng.random() < 0.5:
+            phases.append([(idx, ["G%d" % rng.randint(0, 200)])])
+            idx += 1
+        ph = [(idx, ["H%d:3000000:%d" % (nwait, rng.choice([200, 500, 1500]))])]
+        idx += 1
+        for _ in range(nwait):
+            ph.append((idx, ["S%d" % rng.randint(200, 3000), "U%d" % rng.choice([0, 100, 1000])]))
+            idx += 1
+        phases.append(ph)
+        phases.append([(idx, ["G50"]), (idx + 1, ["G50"])])       # the lock still works afterwards
+        finish("eintr%d" % i, "eintr", phases, rng.choice([0, 100]))
     n = 6 if quick else 60
     for i in range(n):
         idx = 0
@@ -127,7 +144,7 @@ def run(ck):
                 obs[f[1]] = dict(x.split("=", 1) for x in f[2:])
             elif f and f[0] == "harness-exit":
                 ck.violation("harness-crash", "the C46 harness aborted: " + line, {"output": line}, False)
-    text = "".join("%s %s\n" % (s["name"], " ".join(traces.get(s["name"], ["missing"]))) for s in scen)
+    text = "".join("%s %s\n" % (s["name"], " ".join(t for t in traces.get(s["name"], ["missing"]) if t[0] != "r")) for s in scen)
     pm = ck.run([driver], input=text, timeout=600)
     verdicts = {}
     for line in pm.stdout.splitlines():
@@ -141,6 +158,7 @@ def run(ck):
     values = {}
     distinct = set()
     accepted = 0
+    refused = interrupted = 0
     for s in scen:
         name = s["name"]
         tr = traces.get(name)
@@ -150,6 +168,8 @@ def run(ck):
             ck.violation("harness-missing:" + name, "no trace for scenario %s" % name, {"scenario": s["text"]}, False)
             continue
         n_events += len(tr)
+        refused += sum(1 for t in tr if t[0] == "r")
+        interrupted += sum(1 for t in tr if t[0] == "i")
         for t in tr:
             kinds[t[0]] = kinds.get(t[0], 0) + 1
             if t[0] == "v":
@@ -162,7 +182,7 @@ def run(ck):
                "observed_semaphore_values_after_each_phase": [t[1:] for t in tr if t[0] == "v"],
                "max_processes_inside_critical_sections_together(overlap detector)": max_in,
                "harness_status": ob.get("status"), "model_verdict": vd,
-               "legend": "o=sem_open l=sem_wait returned u=sem_post x=process exit k/K=killed outside/inside v=sem_getvalue"}
+               "legend": "o=sem_open l=sem_wait returned 0 (section entered) i=sem_wait returned -1/EINTR r=lock() refused (exception) u=sem_post x=process exit k/K=killed outside/inside v=sem_getvalue"}
         overlap = max_in >= 2 or (vd.get("maxholders", "-").isdigit() and int(vd["maxholders"]) >= 2)
         too_many = any(v >= 2 for v in seen_vals)
         fixed_v = vd.get("fixed", "missing")
@@ -175,8 +195,12 @@ def run(ck):
                 ck.violation(key, "scenario %s: %s (a process could not take a free lock, or failed)" % (name, ob.get("status")), rep, False)
             continue
         if fixed_v == "accept":
-            counts_ok = (sum(1 for t in tr if t[0] == "l") == s["locks"] == int(ob.get("entries", "-1"))
-                         and sum(1 for t in tr if t[0] == "o") == s["opens"])
+            n_l = sum(1 for t in tr if t[0] == "l")
+            n_r = sum(1 for t in tr if t[0] == "r")
+            # every U either got the lock or was refused after an interrupted sem_wait
+            counts_ok = (n_l + n_r == s["locks"] + s["uops"] and n_l == int(ob.get("entries", "-1"))
+                         and sum(1 for t in tr if t[0] == "o") == s["opens"]
+                         and all(("i" + t[1:]) in tr[:x] for x, t in enumerate(tr) if t[0] == "r"))
             if overlap or too_many:
                 key = SRC + ":overlap-with-accepted-trace"
                 if key not in reported:
@@ -193,7 +217,16 @@ def run(ck):
         # the history is not a behaviour of the model for which mutual exclusion is proved
         tok = fixed_v.split(":")[1] if ":" in fixed_v else "?"
         pstate = fixed_v.split(":")[-1]
-        if vd.get("orig") == "accept" and tok[0] == "u" and pstate == "exited":
+        k_rej = int(fixed_v.split("@")[1].split(":")[0]) if "@" in fixed_v else -1
+        mtr = [t for t in tr if t[0] != "r"]
+        prev_same = [t for t in mtr[:max(k_rej, 0)] if t[1:] == tok[1:] and t[0] != "v"]
+        if tok[0] == "l" and prev_same and prev_same[-1][0] == "i":
+            key = SRC + ":lock:EINTR-treated-as-acquired"
+            what = ("MFrontLock::lock goes on after sem_wait was interrupted by a signal (-1/EINTR): history %s: process %s "
+                    "enters at event %s while the count is %s; semaphore values observed %s (created with 1); %d processes inside together"
+                    % (name, tok[1:], fixed_v, fixed_v.split(":")[2] if fixed_v.count(":") >= 2 else "?",
+                       rep["observed_semaphore_values_after_each_phase"], max_in))
+        elif vd.get("orig") == "accept" and tok[0] == "u" and pstate == "exited":
             key = SRC + ":~MFrontLock:sem_post-at-exit"
             what = ("MFrontLock::~MFrontLock posts the semaphore at process exit: history %s rejected at event %s; "
                     "semaphore values observed %s (created with 1); %d processes inside together"
@@ -224,6 +257,7 @@ def run(ck):
         "traces_validated_against_impl": len(traces), "traces_accepted": accepted,
         "processes_run": sum(s["procs"] for s in scen),
         "event_kinds": kinds, "observed_semaphore_values": values,
+        "sem_wait_interrupted": interrupted, "lock_refused_after_interrupt": refused,
         "max_processes_in_a_history": max(s["procs"] for s in scen),
         "exhaustive": False,
     })
